@@ -11,7 +11,7 @@ Over-approximation is never reported.
 import hashlib
 import struct
 from vlib import runner, refs, cpu, coregen, irsem
-from checks.c04_cpu import make_state, lift, undefined_flags, FLAGS, BIT, GPR, rnd
+from checks.c04_cpu import make_state, lift, entry_of, undefined_flags, FLAGS, BIT, GPR, rnd
 
 MMX = [
     ("movd %eax, %mm1", "rr"), ("movd %mm1, %ecx", "rr"), ("movd 0x10(%esi), %mm2", "mr"), ("movd %mm2, 0x10(%esi)", "rm"),
@@ -302,7 +302,7 @@ def worker(run, st_, k, items):
     nstates = run.pick(3, 10)
     for inst, code in items:
         try:
-            r, err = lift(code)
+            r, err = lift(code, entry_of(inst))
         except Exception:
             st_.exclude("lifting_raises(C11)")
             continue
@@ -350,8 +350,8 @@ def worker(run, st_, k, items):
                 struct.pack_into("<I", d, o_, v_)
                 s["data"] = bytes(d)
             und = undefined_flags(inst, s)
-            stubs = [cpu.ENTRY + len(code)] + [cpu.ENTRY + t for t in inst.get("targets", [])] + s["extra_stubs"]
-            base_case = {"code": code, "stubs": stubs, "regs": s["regs"], "eflags": s["eflags"], "data": s["data"], "fx": s.get("fx")}
+            stubs = [entry_of(inst) + len(code)] + [entry_of(inst) + t for t in inst.get("targets", [])] + s["extra_stubs"]
+            base_case = {"code": code, "stubs": stubs, "regs": s["regs"], "eflags": s["eflags"], "data": s["data"], "fx": s.get("fx"), "low": bool(inst.get("low"))}
             base = c.run([base_case])[0]
             st_.ev()
             if base["fault"] is not None:
@@ -369,7 +369,7 @@ def worker(run, st_, k, items):
                 break
             locs = locations(inst, fxmode)
             # ---- write probing
-            pre = {"regs": s["regs"], "eflags": s["eflags"], "data": s["data"], "fx": s.get("fx")}
+            pre = {"regs": s["regs"], "eflags": s["eflags"], "data": s["data"], "fx": s.get("fx"), "low": bool(inst.get("low"))}
             changed = []
             for loc in locs:
                 if loc == ("reg", "esp") and False:
@@ -400,7 +400,7 @@ def worker(run, st_, k, items):
                     s2 = perturb(s, loc, j)
                     if s2 is None:
                         continue
-                    cases.append({"code": code, "stubs": stubs, "regs": s2["regs"], "eflags": s2["eflags"], "data": s2["data"], "fx": s2.get("fx")})
+                    cases.append({"code": code, "stubs": stubs, "regs": s2["regs"], "eflags": s2["eflags"], "data": s2["data"], "fx": s2.get("fx"), "low": bool(inst.get("low"))})
                     meta.append((loc, s2))
             outs = c.run(cases)
             for (loc, s2), o in zip(meta, outs):
